@@ -170,6 +170,7 @@ func init() {
 			{Name: "histories", Run: codecHistories("sam", "samh")},
 			{Name: "readerzoo", TShards: 4, Run: zooUnit("sam", "samh")},
 			{Name: "exactsizes", QShards: 2, TShards: 4, Run: exactSizeUnit("sam")},
+			{Name: "tiny", TShards: 4, Run: tinyUnit("sam")},
 			firstCallUnit(append(firstCodec("sam"), firstCodec("samh")...)),
 		},
 	})
